@@ -238,7 +238,7 @@ class Generator:
             out += src[pos:e]
             return out.decode()
 
-        for rw in u.rewrites:
+        def apply_rw(rw):
             kind = rw[0]
             if kind == 'R1':
                 n = 0
@@ -456,6 +456,20 @@ class Generator:
             else:
                 raise GenError(f'unknown rewrite {kind}')
 
+        for rw0 in u.rewrites:
+            if rw0[0] == '?':
+                edits_before, applied_before = len(edits), len(applied)
+                try:
+                    apply_rw(rw0[1:])
+                except GenError as e:
+                    if 'lost-anchor' not in str(e):
+                        raise
+                    del edits[edits_before:]
+                    del applied[applied_before:]
+                    applied.append(f'{rw0[1]} (optional) not applicable: {e}')
+            else:
+                apply_rw(rw0)
+
         # loop specs: ordinal relative to loops inside the fragment
         frag_loops = [l for l in fn['loops'] if inside(l['span'], span)]
         for k, text in u.loops.items():
@@ -646,6 +660,10 @@ class Generator:
                     cur.tail = st[4:].strip()[len('tail'):].strip()
                 elif d == 'rewrite':
                     cur.rewrites.append(args[1:])
+                elif d == 'rewrite?':
+                    # optional rewrite: applied where its site exists, skipped (and logged) where it does not — for helper
+                    # substitutions that only matter if the code uses the construct at all
+                    cur.rewrites.append(['?'] + args[1:])
                 elif d == 'loop':
                     k = int(args[1])
                     cur.loops[k] = []
